@@ -13,4 +13,8 @@ CLAIMS = {
    text='Lean theorems (unbounded): over every interleaving of received datagrams, validation, migration and poll_transmit calls building any datagrams, an unvalidated path is sent at most 3x what it sent plus one datagram minus one byte (amp_bound), and each datagram is started only while budget remains (amp_gate); the gate predicate and its argument are regenerated from paths.rs/connection/mod.rs on every run. Stateless reset strictly smaller than the inciting datagram for every rng draw, and resets spaced by min_reset_interval over any history (constants and expression shapes regenerated from endpoint.rs). Every path transition observed in the simulator (rx/tx snapshots) is validated against the Lean model by the native driver; per-address byte ledgers of the simulator check the property directly on the real server under vanishing/spoofed/replaying clients.',
    ref='5.7', technique='Lean 4 invariant proof over generated guard + trace validation against the real Connection + simulator oracle',
    note='Skeleton of poll_transmit (gated loop) modelled; packet contents, MTU probes and off-path responses are observed by the oracle only. short-Initial-no-state not yet covered.'),
+ 'C08': dict(
+   text='Lean theorems over ALL histories of close()/packet errors/peer closes/timeouts/polls of the lifecycle model: Drained notified at most once and exactly when drained; after close() the close timer stays at now+3*PTO until drained and servicing timers at the deadline drains (drained within 3 PTO); drained is absorbing and silent; close() owes a packet at once and the closing packet is exempt from congestion control and pacing (flag regenerated from poll_transmit). The full "reason reported exactly once" statement is DISPROVED on the faithful model (lost_at_most_once_counterexample, local_close_reports_nothing_counterexample) and proved in its _partial form for histories without packet errors after close; the excluded histories are the recorded known findings, reproduced on the real code every run. All lifecycle transitions observed in the simulator are validated against the model; simulator oracles check event uniqueness, reason delivery, 3-PTO drain, idle-timeout lower/upper bounds, keep-alive and silence after drain under close/vanish/restart at every point of an exchange.',
+   ref='5.8', technique='Lean 4 invariant proofs + counterexample theorems + trace validation against the real Connection + simulator oracle',
+   note='Skeleton of Connection state; RTT estimation and idle-bound arithmetic not in the model. Known findings: lost-after-local-close:reset, lost-reported-twice:*.'),
 }
